@@ -387,6 +387,16 @@ Proof.
   destruct (Hedges _ _ _ Hg) as [_ (A & _)]. exact A.
 Qed.
 
+(* state 0 is the closure of the start item and every transition leads to the closure of the advanced items *)
+Theorem build_canonical_edges aut : build g = Some aut ->
+  items (st aut 0) = closure g [(0, 0)] /\
+  forall q X q', goto aut q X = Some q' -> items (st aut q') = closure g (advance g (items (st aut q)) X).
+Proof.
+  intros Hb. pose proof (build_loop_inv _ _ _ _ inv_init Hb) as (Hst0 & Hlen & Hker & Hedges).
+  split; [exact Hst0|]. intros q X q' Hg. unfold goto in Hg. apply assoc_In in Hg.
+  destruct (Hedges _ _ _ Hg) as [_ (_ & _ & _ & D)]. exact D.
+Qed.
+
 End Inv.
 
 Print Assumptions build_structural.
